@@ -77,21 +77,18 @@ def check_split_index(rc: RuleCtx, rule: str, m: rm.LoopModel, tag: str, allow_m
         seen += 1
         good = False
         why = "not an argmax of the distance vector"
-        if a is not None and a.kind == "fn" and a.name == "argmax":
-            X = a.args[0]
-            xa = single_atom(X)
-            if xa is not None and xa.name == "slice":
-                base, lo, hi = xa.args
-                ba = single_atom(base)
-                if lo.is_const() is not None and lo.is_const() == c:
-                    if ba is not None and ba.name.startswith("slot:") and len(ba.args) == 3 and all(p.equals(q) for p, q in zip(ba.args, want_args)):
-                        good = True
-                    else:
-                        why = "the distances are not distance_points(pt, pt[0], pt[-1]) of the popped range"
-                else:
-                    why = f"the offset added to the argmax ({c}) is not the start of the slice ({lo})"
+        sp = rm.scanned_positions(m, idx)
+        if sp is not None and sp[4] == "argmax":
+            base, p_lo, p_hi, maps_back, _nm, _rev = sp
+            ba = single_atom(base)
+            if not (ba is not None and ba.name.startswith("slot:") and len(ba.args) == 3 and all(p.equals(q) for p, q in zip(ba.args, want_args))):
+                why = "the distances are not distance_points(pt, pt[0], pt[-1]) of the popped range"
+            elif not maps_back:
+                why = "the position found in the scanned view is not mapped back to its position in the distance vector (offset differs from the view start)"
+            elif not (p_lo.equals(C(1)) and p_hi.equals(m.L.sub(C(2)))):
+                why = f"the scan covers positions {p_lo}..{p_hi}, not exactly the interior points 1..L-2"
             else:
-                why = "the argmax is not restricted to interior points"
+                good = True
         if not good:
             ok = False
             res.violation(rule, m.fi.module, m.fi.name, m.loop, f"{tag}: the split point is not the farthest interior point from the chord: {why}",
